@@ -94,7 +94,9 @@ def write_files(case, tmp):
             with open(path, "w") as handle:
                 handle.write(texts[ext])
             paths.append(pathlib.Path(path))
-    nodes = [dict(id=k, resname=resname, resid=resid) for k, resid, resname in case["graph"]["nodes"]]
+    from_itp = {int(k): v for k, v in case["graph"].get("from_itp", {}).items()}
+    nodes = [dict(id=k, resname=resname, resid=resid, **({"from_itp": from_itp[k]} if k in from_itp else {}))
+             for k, resid, resname in case["graph"]["nodes"]]
     edges = []
     for u, v, linktype in case["graph"]["edges"]:
         edge = dict(source=u, target=v)
@@ -125,12 +127,22 @@ def itp_edges(text):
 
 
 def ownership(case):
-    """atoms of every residue as the generator defines them: residues in resid order own consecutive node keys"""
-    sizes = {b["name"]: len(b["atoms"]) for b in case["blocks"]}
-    own, offset = {}, 0
+    """atoms of every residue as the generator defines them: residues in resid order own consecutive node keys; a
+    residue taken from a multi-residue (from_itp) block owns the atoms of the corresponding residue of that block"""
+    blocks = {b["name"]: b for b in case["blocks"]}
+    from_itp = {int(k): v for k, v in case["graph"].get("from_itp", {}).items()}
+    own, offset, position = {}, 0, {}
     for key, resid, resname in sorted(case["graph"]["nodes"], key=lambda n: n[1]):
-        own[key] = list(range(offset, offset + sizes[resname]))
-        offset += sizes[resname]
+        if key in from_itp:
+            block = blocks[from_itp[key]]
+            nres = max(a.get("resid", 1) for a in block["atoms"])
+            pos = position.get(from_itp[key], 0)
+            position[from_itp[key]] = pos + 1
+            size = sum(1 for a in block["atoms"] if a.get("resid", 1) == pos % nres + 1)
+        else:
+            size = len(blocks[resname]["atoms"])
+        own[key] = list(range(offset, offset + size))
+        offset += size
     return own
 
 
@@ -140,6 +152,8 @@ def one_missing_case(ctx, case):
     from polyply.src.graph_utils import find_missing_edges
     from polyply.src.gen_itp import gen_params
     replay = dict(stream="missing", case=case)
+    import random
+    hist_rng = random.Random(json.dumps(case, sort_keys=True))
     with tempfile.TemporaryDirectory() as tmp:
         paths, seq = write_files(case, tmp)
         try:
@@ -150,6 +164,7 @@ def one_missing_case(ctx, case):
             direct = [[m["resA"], int(m["idxA"]), m["resB"], int(m["idxB"])] for m in find_missing_edges(meta, meta.molecule)]
             resgraph = G.dump_resgraph(meta)
             medges = [[int(u), int(v)] for u, v in meta.molecule.edges]
+            first_state = (resgraph, medges)
             # hypotheses of C10_exact / C10_missing_eq_spec on the real objects: fragment graphs are subgraphs of the
             # molecule on the residue's own atoms, residues own different atoms
             mset = {frozenset(e) for e in medges}
@@ -158,6 +173,25 @@ def one_missing_case(ctx, case):
                 and sum(len(o) for o in owners) == len(set().union(*owners) if owners else set())
             ctx.tally(theorem_hypotheses_hold=hyp)
             alive = set(int(k) for k in meta.molecule.nodes)
+            # (a') history: some of the missing links are supplied (a bond between the two residues is added to the
+            # molecule, as a later link / an explicit link / a user would) and find_missing_edges is asked again
+            history = None
+            if direct:
+                by_resid = {int(meta.nodes[k]["resid"]): k for k in meta.nodes}
+                supplied = []
+                for rec in direct:
+                    if hist_rng.random() < 0.6 and rec[1] in by_resid and rec[3] in by_resid:
+                        fa = list(meta.nodes[by_resid[rec[1]]]["graph"].nodes)
+                        fb = list(meta.nodes[by_resid[rec[3]]]["graph"].nodes)
+                        if fa and fb:
+                            pair = (hist_rng.choice(fa), hist_rng.choice(fb))
+                            meta.molecule.add_edge(*pair)
+                            supplied.append([int(pair[0]), int(pair[1])])
+                if supplied:
+                    direct2 = [[m["resA"], int(m["idxA"]), m["resB"], int(m["idxB"])] for m in find_missing_edges(meta, meta.molecule)]
+                    history = dict(direct=direct2, resgraph=G.dump_resgraph(meta),
+                                   medges=[[int(u), int(v)] for u, v in meta.molecule.edges], supplied=supplied)
+            resgraph, medges = first_state
             # (b) the command, with its log records
             out = pathlib.Path(os.path.join(tmp, "out.itp"))
             # the bond graph of THAT run (its link application may visit matches in another order than (a)):
@@ -197,7 +231,38 @@ def one_missing_case(ctx, case):
     reqs = [dict(op="missing", nodes=[[n["key"], n["resid"], n["resname"], n["frag"], n["fedges"]] for n in resgraph["res"]],
                  redges=resgraph["redges"], medges=medges),
             dict(op="missing", nodes=req_nodes, redges=[[u, v] for u, v, _ in case["graph"]["edges"]], medges=run_edges)]
-    return dict(case=case, replay=replay, direct=direct, warnings=warnings, removed=removed, written=written, reqs=reqs)
+    if history is not None:
+        alive2 = run_alive
+        reqs.append(dict(op="missing", nodes=[[n["key"], n["resid"], n["resname"], n["frag"], n["fedges"]] for n in history["resgraph"]["res"]],
+                         redges=history["resgraph"]["redges"], medges=history["medges"]))
+        reqs.append(dict(op="missing", nodes=[[k, resid, resname, [a for a in own[k] if a in alive2], []] for k, resid, resname in case["graph"]["nodes"]],
+                         redges=[[u, v] for u, v, _ in case["graph"]["edges"]], medges=history["medges"]))
+    return dict(case=case, replay=replay, direct=direct, warnings=warnings, removed=removed, written=written, reqs=reqs,
+                history=history)
+
+
+def judge_history(ctx, item, ans_model, ans_spec, known):
+    """second evaluation, after bonds were supplied for some of the pairs reported first"""
+    case, replay, hist = item["case"], dict(item["replay"], history=item["history"]["supplied"]), item["history"]
+    if not ans_model.get("ok") or not ans_spec.get("ok"):
+        return
+    ctx.correspond("findMissingEdges-after-change", hist["direct"], ans_model["missing"], replay)
+    ctx.tally(history_evaluations=True)
+    if item["removed"]:
+        return
+    def norm(m):      # a record names a PAIR of residues, whichever comes first
+        return tuple(sorted([(m[1], m[0]), (m[3], m[2])]))
+    got = {norm(m) for m in hist["direct"]}
+    want = {norm(m) for m in ans_spec["spec"]}
+    for rec in sorted(got - want):
+        ctx.oracle_fail("both", "after a bond between them was supplied, residues %s %s and %s %s are joined by an atom-level edge and "
+                        "still reported missing by a second find_missing_edges (supplied bonds %s) | graph=%s"
+                        % (rec[0][0], rec[0][1], rec[1][0], rec[1][1], hist["supplied"], case["graph"]), replay)
+        break
+    for rec in sorted(want - got):
+        ctx.oracle_fail("neither", "second find_missing_edges (after bonds %s were supplied): residues %s %s and %s %s are not joined "
+                        "and not reported | graph=%s" % (hist["supplied"], rec[0][0], rec[0][1], rec[1][0], rec[1][1], case["graph"]), replay)
+        break
 
 
 def judge_missing(ctx, item, ans_model, ans_spec, known):
@@ -264,17 +329,73 @@ def gen_missing_case(rng, max_res, allow_removal):
     return case
 
 
+def gen_fromitp_case(rng):
+    """copies of one multi-residue .itp block (nodes labelled from_itp) in a row, optionally followed by ordinary
+    residues; the junctions between copies (and to the ordinary residues) are realised by a link or not"""
+    k = rng.choice([2, 2, 3])
+    copies = rng.choice([1, 2, 2, 3])
+    resnames = ["R%d" % (i + 1) for i in range(k)]
+    atoms, per_res = [], []
+    for r in range(k):
+        n = rng.randint(1, 3)
+        per_res.append(list(range(len(atoms), len(atoms) + n)))
+        atoms += [dict(name="C%d" % (i + 1), atype=rng.choice(G.ATYPES), cg=r + 1, resid=r + 1, resname=resnames[r]) for i in range(n)]
+    ixns = []
+    for res in per_res:
+        ixns += [["bonds", [a, b], ["1", "0.37", "7000"], {}] for a, b in zip(res, res[1:])]
+    for r in range(k - 1):
+        if rng.random() < 0.9:
+            ixns.append(["bonds", [per_res[r][-1], per_res[r + 1][0]], ["1", "0.37", "7000"], {}])
+    blocks = [dict(name="MIX", nrexcl=1, syntax="itp", atoms=atoms, ixns=ixns)]
+    nreg = rng.choice([0, 0, 1, 2])
+    if nreg:
+        n = rng.randint(1, 3)
+        blocks.append(dict(name="A", nrexcl=1, syntax="itp", atoms=[dict(name="C%d" % (i + 1), atype="P1", cg=1) for i in range(n)],
+                           ixns=[["bonds", [i, i + 1], ["1", "0.3", "1000"], {}] for i in range(n - 1)]))
+    nodes, from_itp = [], {}
+    for c in range(copies):
+        for r in range(k):
+            key = len(nodes)
+            nodes.append([key, key + 1, resnames[r]])
+            from_itp[str(key)] = "MIX"
+    for _ in range(nreg):
+        nodes.append([len(nodes), len(nodes) + 1, "A"])
+    edges = [[i, i + 1, None] for i in range(len(nodes) - 1)]
+    if len(nodes) >= 3 and rng.random() < 0.2:
+        edges.append([0, len(nodes) - 1, None])
+    links = []
+
+    def bond_link(name_a, res_a, name_b, res_b):
+        return dict(atoms=[[name_a, {"resname": res_a}], ["+" + name_b, {"resname": res_b}]],
+                    ixns=[["bonds", [name_a, "+" + name_b], ["1", "0.41", "5000"], {}]], edges=[], nonedges=[], patterns=[])
+    last_name = "C%d" % len(per_res[-1])
+    if rng.random() < 0.5:
+        links.append(bond_link(last_name, resnames[-1], "C1", resnames[0]))          # copy -> next copy
+    if nreg and rng.random() < 0.5:
+        links.append(bond_link(last_name, resnames[-1], "C1", "A"))                  # last copy -> ordinary residue
+    if nreg == 2 and rng.random() < 0.5:
+        links.append(bond_link("C1", "A", "C1", "A"))
+    return dict(blocks=blocks, links=links, graph=dict(nodes=nodes, edges=edges, from_itp=from_itp))
+
+
 def run_missing(ctx, known):
     rng = ctx.rng
     allow_removal = "requested-edge-vanishes-after-atom-removal" in known
     cases = corpus_cases("missing")
     for _ in range(ctx.budget(260, 3000)):
-        cases.append(gen_missing_case(rng, ctx.budget(7, 10), allow_removal or rng.random() < 0.15))
+        if rng.random() < 0.15:
+            cases.append(gen_fromitp_case(rng))
+        else:
+            cases.append(gen_missing_case(rng, ctx.budget(7, 10), allow_removal or rng.random() < 0.15))
     items = [x for x in (one_missing_case(ctx, c) for c in cases) if x is not None]
     reqs = [r for item in items for r in item["reqs"]]
     answers = ctx.driver.ask(reqs) if reqs else []
-    for idx, item in enumerate(items):
-        judge_missing(ctx, item, answers[2 * idx], answers[2 * idx + 1], known)
+    pos = 0
+    for item in items:
+        judge_missing(ctx, item, answers[pos], answers[pos + 1], known)
+        if item["history"] is not None:
+            judge_history(ctx, item, answers[pos + 2], answers[pos + 3], known)
+        pos += len(item["reqs"])
 
 
 # ------------------------------------------------------------------------------------------ stream gate
@@ -488,6 +609,8 @@ def replay(ctx, data):
             if got is not None:
                 answers = ctx.driver.ask(got["reqs"])
                 judge_missing(ctx, got, answers[0], answers[1], known)
+                if got["history"] is not None:
+                    judge_history(ctx, got, answers[2], answers[3], known)
         elif item.get("stream") == "gate":
             got = one_gate_case(ctx, item["top"], full=True)
             if got is not None:
